@@ -110,39 +110,99 @@ def validateMaster (d : Dist) (ns ncb : Bool) (evs : List Ev) : Except String Un
     (if ncb then [Ev.center 0, Ev.cleave 0] else [])
   if evs.filter (!isInternal ·) = exp then .ok () else .error "master-only event sequence differs"
 
-def validate (d : Dist) (ns ncb hooks : Bool) (raw : List RawEv) : Except String Unit := do
+def toEEv (bind : Nat → Nat) (e : RawEv) : Option EEv :=
+  match e.kind with
+  | 11 => some (.fopenF (bind e.t) e.a)
+  | 12 => some (.fwaitF (bind e.t) e.a)
+  | 13 => some (.fail (bind e.t))
+  | _ => (toEv bind e).map EEv.ok
+
+def feedE (step : σ → EEv → Option σ) : List EEv → Nat → σ → Except String σ
+  | [], _, s => .ok s
+  | e :: es, k, s =>
+    match step s e with
+    | some s' => feedE step es (k + 1) s'
+    | none => .error s!"event {k} ({repr e}) is not a transition of the error-path model"
+
+def isMasterCloseE : EEv → Bool
+  | .ok (.fclose 0 _) => true
+  | _ => false
+
+/-- a job with an injected task failure (hook H2 log required): the log must be a run of the error-path machines -/
+def validateErr (d : Dist) (ncb : Bool) (fs : List Bool) (raw : List RawEv) (bind : Nat → Nat) :
+    Except String (List Bool) := do
+  let evs := raw.filterMap (toEEv bind)
+  let pre := evs.takeWhile isMasterCloseE
+  let fs1 := pre.foldl (fun fs e => match e with | .ok (.fclose _ k) => resetStep fs k | _ => fs) fs
+  let evs := evs.drop pre.length
+  if fs1 ≠ resetAll fs then throw "a fence is still open from the previous job when the protocol starts"
+  if d.strategy = 4 then
+    let c := CCfg.ofDist d ncb
+    let s ← feedE c.estep evs 0 { c.einit with base := c.initFrom fs1 }
+    if CCfg.efinal s then return persist d.nFences s.base.fence else throw "log ends in a non-final state"
+  else
+    let c := LCfg.ofDist d ncb
+    let s ← feedE c.estep evs 0 { c.einit with base := c.initFrom fs1 }
+    if LCfg.efinal s then return persist d.nFences s.base.fence else throw "log ends in a non-final state"
+
+def isMasterClose : Ev → Bool
+  | .fclose 0 _ => true
+  | _ => false
+
+/-- validates the log of one job; `fs` = state of `_thread_fences` left by the previous jobs of this assembler;
+returns the fence vector this job leaves behind -/
+def validate (d : Dist) (ns ncb hooks failing : Bool) (fs : List Bool) (raw : List RawEv) : Except String (List Bool) := do
   -- thread binding: kind 8 events `8 label firstcell`
   let firsts := (List.range (d.nW + 1)).map fun w => ((workerCells d ns w).head?, w)
   let binds := raw.filterMap fun e =>
     if e.kind = 8 then (firsts.find? (fun p => p.1 = some e.a)).map fun p => (e.t, p.2) else none
   let nb := (raw.filter (·.kind = 8)).length
   if binds.length ≠ nb then throw "a thread starts with a cell that is no worker's first cell"
-  let bind := fun (l : Nat) => if l = 0 then 0 else ((binds.find? (·.1 = l)).map (·.2)).getD (d.nW + 1)
+  -- a worker that never got to a cell (error path: the colour loop was left before its first share) is identified
+  -- by the fence it opens (workers only ever open their own fence)
+  let ownFence := fun (l : Nat) => ((raw.find? (fun e => (e.kind = 0 ∨ e.kind = 11) ∧ e.t = l)).map (·.a)).getD (d.nW + 1)
+  let bind := fun (l : Nat) => if l = 0 then 0 else ((binds.find? (·.1 = l)).map (·.2)).getD (ownFence l)
+  if failing then
+    -- error path: modelled for scatter jobs on worker threads with the complete (hook H2) log; otherwise only the
+    -- outcome (termination, results of the following jobs) is checked
+    if hooks ∧ ns ∧ d.nW ≠ 0 ∧ !d.elemIdx.isEmpty then return (← validateErr d ncb fs raw bind)
+    else if d.elemIdx.isEmpty then return fs
+    else if d.nW = 0 then return (List.replicate d.nFences true)
+    else return (resetAll fs).set 0 true
   let evs := raw.filterMap (toEv bind)
   -- without hook H2 only the job-level events are in the log (plus the final join marker)
   let evs := if hooks then evs else evs.filter (!isInternal ·)
-  -- with hook H2 the log starts with `assemble()` re-closing all fences (this is what makes repeated jobs start
-  -- from the model's initial state): exactly `fclose 0 f` for f = 0 .. nFences-1
-  let reset := (List.range d.nFences).map fun f => Ev.fclose 0 f
-  if hooks ∧ !d.elemIdx.isEmpty ∧ evs.take d.nFences ≠ reset then throw "fences are not reset at the start of assemble()"
-  let evs := if hooks ∧ !d.elemIdx.isEmpty then evs.drop d.nFences else evs
+  -- `assemble()` returns immediately when there are no elements: the fences are not touched
+  if d.elemIdx.isEmpty then
+    if evs.all isInternal then return fs else throw "events without elements"
+  -- the reset loop: with hook H2 every `close()` is in the log; the fences the job really starts with are the
+  -- persisted ones after the LOGGED closes - a fence left open from the previous job is rejected
+  let pre := evs.takeWhile isMasterClose
+  let fs1 := if hooks then pre.foldl (fun fs e => match e with | .fclose _ k => resetStep fs k | _ => fs) fs
+             else resetAll fs
+  let evs := if hooks then evs.drop pre.length else evs
+  match (fs1.zipIdx.find? (fun p => p.1)) with
+  | some (_, k) => throw s!"fence {k} is still open from the previous job when the protocol starts"
+  | none => pure ()
+  if fs1 ≠ resetAll fs then throw "fence vector after the reset loop differs from the model's"
   let fuel := 4 * (d.nW + 2) * (d.colorElems.length + 2) + 16
-  -- `assemble()` returns immediately when there are no elements
-  if d.elemIdx.isEmpty then (if evs.all isInternal then .ok () else .error "events without elements")
-  else if d.nW = 0 then validateMaster d ns ncb evs
+  if d.nW = 0 then
+    -- `assemble_master`: reset, open front and back, work on the calling thread
+    validateMaster d ns ncb evs
+    return (fs1.set 0 true).set (d.nFences - 1) true
   else if !ns then
     -- jobs without scatter: workers touch no fence, the master opens the front fence and joins (every strategy)
     let c : NCfg := ⟨d.nW, ncb⟩
-    let s ← feed (nMachine c) hooks fuel evs 0 c.init
-    if NCfg.final s then pure () else throw "log ends in a non-final state"
+    let s ← feed (nMachine c) hooks fuel evs 0 (c.initFrom fs1)
+    if NCfg.final s then return fs1.set 0 s.front else throw "log ends in a non-final state"
   else if d.strategy = 4 then
     let c := CCfg.ofDist d ncb
-    let s ← feed (cMachine c) hooks fuel evs 0 c.init
-    if CCfg.final s then pure () else throw "log ends in a non-final state"
+    let s ← feed (cMachine c) hooks fuel evs 0 (c.initFrom fs1)
+    if CCfg.final s then return persist d.nFences s.fence else throw "log ends in a non-final state"
   else
     let c := LCfg.ofDist d ncb
-    let s ← feed (lMachine c) hooks fuel evs 0 c.init
-    if LCfg.final s then pure () else throw "log ends in a non-final state"
+    let s ← feed (lMachine c) hooks fuel evs 0 (c.initFrom fs1)
+    if LCfg.final s then return persist d.nFences s.fence else throw "log ends in a non-final state"
 
 def rawEvP : P RawEv := do
   let k ← nat; let t ← nat; let a ← nat
@@ -163,6 +223,12 @@ def handle : P String := do
     let inp ← inputP
     let ns ← nat; let ncb ← nat; let reps ← nat; let _pseed ← nat
     let bar ← tok
+    -- optional failure injection for the first job: `fwhere fcell`
+    let (failing, bar) ← (if bar ≠ "|" then do
+        let _fcell ← nat
+        let b ← tok
+        pure (bar ≠ "0", b)
+      else pure (false, bar) : P (Bool × String))
     if bar ≠ "|" then throw "missing |"
     let r ← tok
     if r ≠ "R" then pure "REJECT abnormal-run"
@@ -173,7 +239,12 @@ def handle : P String := do
       | some d =>
         let mut out := s!"T {d.nW} {reps}"
         let mut bad : Option String := none
+        -- `compile()` creates the fences closed; from then on their state persists from job to job
+        let mut fs : List Bool := List.replicate d.nFences false
         for rep in List.range reps do
+          -- job type of this repetition (2 = alternate: even repetitions scatter / combine)
+          let nsr := if ns = 2 then rep % 2 == 0 else ns != 0
+          let ncr := if ncb = 2 then rep % 2 == 0 else ncb != 0
           -- skip the implementation's deterministic part, read the events
           let nseq ← nat
           let _ ← many nseq natList
@@ -182,11 +253,13 @@ def handle : P String := do
           let hooks ← nat
           let nev ← nat
           let raw ← many nev rawEvP
-          match validate d (ns != 0) (ncb != 0) (hooks != 0) raw with
-          | .ok () => pure ()
-          | .error e => if bad.isNone then bad := some s!"REJECT rep {rep}: {e}"
-          let ncomb := if ncb != 0 ∧ !d.elemIdx.isEmpty then (if d.nW = 0 then 1 else d.nW) else 0
-          out := out ++ s!" {showSeqs (expectedSeqs d (ns != 0))} {showNatsL (expectedVec inp (ns != 0))} {expectedIntegral inp (ncb != 0)} {ncomb}"
+          if bad.isNone then
+            match validate d nsr ncr (hooks != 0) (failing ∧ rep = 0) fs raw with
+            | .ok fs' => fs := fs'
+            | .error e => bad := some s!"REJECT rep {rep}: {e}"
+          let ncomb := if ncr ∧ !d.elemIdx.isEmpty then (if d.nW = 0 then 1 else d.nW) else 0
+          if failing ∧ rep = 0 then out := out ++ " F"
+          else out := out ++ s!" {showSeqs (expectedSeqs d nsr)} {showNatsL (expectedVec inp nsr)} {expectedIntegral inp ncr} {ncomb}"
         match bad with
         | some b => pure b
         | none => pure out
